@@ -19,6 +19,9 @@ import traceback
 from collections import Counter
 
 ROOT = os.path.dirname(os.path.dirname(os.path.abspath(__file__)))
+# runs against a scratch copy (sensitivity testing with VERIF_REPO) must not overwrite the real evidence
+SCRATCH = os.path.realpath(os.environ.get("VERIF_REPO", "/repo")) != "/repo"
+EVID_DIR = os.path.join(ROOT, ".cache", "evidence-scratch") if SCRATCH else os.path.join(ROOT, "evidence")
 
 
 class Outcome:
@@ -327,8 +330,8 @@ def main(argv=None):
         assumptions=list(getattr(mod, "ASSUMPTIONS", [])),
         wall_s=round(wall, 2), violations=len(replays),
     )
-    os.makedirs(os.path.join(ROOT, "evidence"), exist_ok=True)
-    with open(os.path.join(ROOT, "evidence", f"{pid}.json"), "w") as f:
+    os.makedirs(EVID_DIR, exist_ok=True)
+    with open(os.path.join(EVID_DIR, f"{pid}.json"), "w") as f:
         json.dump(evidence, f, indent=1, default=str)
         f.write("\n")
 
